@@ -3,10 +3,10 @@ package parser
 import (
 	"os"
 	s "strings"
+	"sync"
 	"unsafe"
 
 	"github.com/antlr/antlr4/runtime/Go/antlr"
-	"github.com/cornelk/hashmap"
 	"github.com/sirupsen/logrus"
 )
 
@@ -29,8 +29,8 @@ var (
 	}
 
 	// Antlr doesn't support reentrant Go lexer state, so we work around it with
-	// a fast lock-free hash map.
-	lexerStates = &hashmap.HashMap{}
+	// a concurrent map keyed by lexer. Every lexer only ever touches its own entry.
+	lexerStates = &sync.Map{}
 )
 
 const importKeyword = "import"
@@ -52,17 +52,17 @@ type lexerState struct {
 
 func ls(l *SyslLexer) *lexerState {
 	key := uintptr(unsafe.Pointer(l))
-	if state, has := lexerStates.Get(key); has {
+	if state, has := lexerStates.Load(key); has {
 		return state.(*lexerState)
 	}
 	state := &lexerState{}
-	lexerStates.Set(key, state)
+	lexerStates.Store(key, state)
 	return state
 }
 
 func DeleteLexerState(l *SyslLexer) {
 	key := uintptr(unsafe.Pointer(l))
-	lexerStates.Del(key)
+	lexerStates.Delete(key)
 }
 
 func calcSpaces(text string) int {
